@@ -192,6 +192,48 @@ mark_recursive.callees['self._mark_recursive'] = mark_recursive
 CONTRACTS = [hmesh_refine, mark_recursive] + [_children_contract(d) for d in (1, 2, 3)] + [_parent_contract(d) for d in (1, 2, 3)]
 
 
+# ---- the marking pass of HSpace.refine: after it the marks are closed under Nbh on EVERY level -------------------------------------
+
+def _skip_max_h(ex, st):
+    _skip_max(ex, st)
+
+
+def _ensure_levels_h(ex, st):
+    # HSpace._ensure_levels(max_lv + 2): afterwards numlevels >= max_lv + 2; modelled by the precondition numlevels == marked.len >= max_lv + 2
+    me = st.heap[st.env['self'].id]
+    from pyvc.symexec import _Line
+    ex.oblige(st, 'pre', _Line(ex.fn.lineno + 14), to_z3(me.attrs['numlevels']) >= st.env['max_lv'] + 2, 'enough levels exist (ensure_levels is a no-op)', label='ensure_levels')
+
+
+def _marking_post(s):
+    d, M, M0 = s.self.disparity, s.marked, s.old.marked
+    L = s.self.numlevels
+    return [('closed-on-every-level', ForAll('k', lambda k: Implies(And(0 <= k, k < L), _closed(M, k, d, s.truncate)))),
+            ('only-grows', ForAll('k', lambda k: Implies(And(0 <= k, k < L), z3.IsSubset(M0[k], M[k])))),
+            ("caller's-dict-untouched", ForAll('k', lambda k: Implies(And(0 <= k, k < L), s.old.marked[k] == M0[k])))]
+
+
+hspace_refine_marking = Contract(
+    F, 'HSpace.refine', name='hierarchical:HSpace.refine[admissibility marking]',
+    params={'self': Obj(disparity=Int(1), numlevels=Int(1)), 'marked': SetList(Cell), 'truncate': Bool()},
+    requires=lambda s: [s.marked.len == s.self.numlevels,
+                        # (ensure_levels has run: the finest level and everything beyond carries no marks)
+                        ForAll('l', lambda l: Implies(Or(l < 0, l >= s.self.numlevels - 1), _cq('c', lambda c: Not(s.marked.member(l, c)))))],
+    callees={'self._mark_recursive': None},
+    replace=[(r'max_lv = max\(', _skip_max_h), (r'self\._ensure_levels\(max_lv \+ 2\)', _ensure_levels_h)],
+    loops={0: LoopSpec(r'for l in range\(self\.numlevels\)', inv=lambda s: [
+        ('closed-below-l', ForAll('k', lambda k: Implies(And(0 <= k, k < s.l), _closed(s.marked, k, s.self.disparity, s.truncate)))),
+        ('len', s.marked.len == s.self.numlevels),
+        ('only-grows', ForAll('k', lambda k: Implies(And(0 <= k, k < s.marked.len), z3.IsSubset(s.old.marked[k], s.marked[k]))))])},
+    ensures=_marking_post,
+    options={'timeout_ms': 60000, 'stop_after': r'if self\.disparity < np\.inf', 'no_return_ok': True},
+    notes=['only the admissibility-marking pass (up to and including the `if self.disparity < np.inf` block) is under contract; finite disparity '
+           '(precondition: disparity is an integer >= 1); _mark_recursive is used through its contract, whose precondition "closed below l" is what '
+           'forces the pass to visit every level in ascending order'],
+)
+hspace_refine_marking.callees['self._mark_recursive'] = mark_recursive
+
+
 # ---- representation invariant of the cached index tables ---------------------------------------------------------------------
 # HSpace caches canonical index tables (__ravel_global, __index_dirichlet, __ravel_dirichlet), which are functions of
 # actfun / deactfun / the mesh.  Invariant: "cache empty or consistent with the state".  Every public method that changes
@@ -301,3 +343,42 @@ def cache_invalidation_obligations():
     if not obs:
         raise KeyError('no mutating public method of HSpace found')
     return obs, None
+
+
+# ---- _position_index: positions of a sorted sub-list inside a sorted list -----------------------------------------------------
+
+def _strict(seq):
+    return ForAll('a b', lambda a, b: Implies(And(0 <= a, a < b, b < seq.len), seq[a] < seq[b]))
+
+
+_wit = z3.Function('position_witness', z3.IntSort(), z3.IntSort())
+
+
+def _pi_req(s):
+    sup, sub = s.suplist, s.sublist
+    return [_strict(sup), _strict(sub),
+            ForAll('j', lambda j: Implies(And(0 <= j, j < sub.len), And(0 <= _wit(j), _wit(j) < sup.len, sup[_wit(j)] == sub[j])))]
+
+
+def _pi_inv(s):
+    sup, sub, out, it = s.suplist, s.sublist, s.out, s._it0
+    return [('len', out.len == it),
+            ('found', ForAll('j', lambda j: Implies(And(0 <= j, j < it), And(0 <= out[j], out[j] < sup.len, sup[out[j]] == sub[j])))),
+            # the search cursor never passes the position of the next candidate: it is at most one past the last found position
+            ('cursor', And(0 <= s.k, If(it > 0, s.k <= out[it - 1] + 1, s.k <= 0)))]
+
+
+position_index = Contract(
+    F, '_position_index',
+    params={'suplist': IntSeq(), 'sublist': IntSeq()},
+    requires=_pi_req,
+    loops={0: LoopSpec(r'for candidate in sublist', inv=_pi_inv)},
+    ensures=lambda s: [('length', s.result.len == s.sublist.len),
+                       ('positions', ForAll('j', lambda j: Implies(And(0 <= j, j < s.sublist.len),
+                                                                   And(0 <= s.result[j], s.result[j] < s.suplist.len, s.suplist[s.result[j]] == s.sublist[j]))))],
+    options={'timeout_ms': 30000, 'empty_lists_int': True},
+    notes=['both lists strictly increasing and sublist contained in suplist (precondition, as documented); list.index(x, k) is modelled exactly '
+           '(smallest position >= k, ValueError obligation); the sortedness is what makes the moving start position k sound'],
+)
+
+CONTRACTS = CONTRACTS + [position_index, hspace_refine_marking]
